@@ -107,7 +107,10 @@ def chart_canon(e):
             except ValueError:
                 out.append(t)
         return out
-    return (e.name, sorted((a, tuple(tok(v))) for a, v in e.attrs), [tuple(tok(t)) for _, t in e.content], [chart_canon(c) for c in e.children])
+    # a zero origin / offset / angles vector of an Extrude chart is its default and is not written
+    attrs = sorted((a, tuple(tok(v))) for a, v in e.attrs
+                   if not (e.name == "Extrude" and a in ("origin", "offset", "angles") and all(x == 0.0 for x in tok(v))))
+    return (e.name, attrs, [tuple(tok(t)) for _, t in e.content], [chart_canon(c) for c in e.children])
 
 
 def canon(roots, check_counts=False):
